@@ -49,14 +49,14 @@ instance (t : Tok) : Decidable (TokWF t) := by
 table (except UNSPEC/USE/PHI, which the writer refuses), data of every element type -/
 structure WFfull (cfg : Cfg) (ms : List Module) : Prop where
   wf : WF { cfg with globalDoubleRead := false, dataPtr := true, codeLimit := cfg.nops.length,
-                     endfuncLabels := true } ms
+                     endfuncLabels := true, lrefZeroIsNone := false } ms
 
 /-- the facts `translate/c11_tables.py` finds in the pinned source (kept here so that the witnesses
 below stay theorems after a repair; the check reports when `Gen.C11.cfg` moves away from it) -/
 def Cfg.today : Cfg :=
   { nops := [2, 2, 2, 2, 2, 2, 2, 2, 2, 2, 2, 2, 2, 2, 2, 2, 2, 2, 2, 2, 2, 2, 2, 2, 2, 2, 2, 2, 2, 2, 2, 2, 2, 2, 3, 3, 3, 3, 3, 3, 3, 3, 3, 3, 3, 3, 3, 3, 3, 3, 3, 3, 3, 3, 3, 3, 3, 3, 3, 3, 3, 3, 3, 3, 3, 3, 3, 3, 3, 3, 3, 3, 3, 3, 3, 3, 3, 3, 3, 3, 3, 3, 3, 3, 3, 3, 3, 3, 3, 3, 3, 3, 3, 3, 3, 3, 3, 3, 3, 3, 3, 3, 3, 3, 3, 3, 3, 3, 3, 3, 3, 3, 3, 3, 3, 3, 3, 3, 1, 2, 2, 2, 2, 3, 3, 3, 3, 3, 3, 3, 3, 3, 3, 3, 3, 3, 3, 3, 3, 3, 3, 3, 3, 3, 3, 3, 3, 3, 3, 3, 3, 3, 3, 3, 3, 3, 3, 3, 3, 3, 3, 1, 1, 1, 1, 2, 1, 0, 0, 0, 0, 0, 1, 2, 1, 1, 3, 4, 1, 1, 0, 0, 2, 3, 3, 0, 0, 0],
     codeLimit := 180, unportable := [181, 185, 186], globalDoubleRead := true, lrefOrphan := true,
-    dataPtr := false, endfuncLabels := false, version := 1 }
+    dataPtr := false, endfuncLabels := false, lrefZeroIsNone := false, version := 1 }
 
 def nm (s : String) : Name := s.toList.map Char.toNat
 
